@@ -60,7 +60,7 @@ func dtlcpConn(ccfg, scfg *dtlcp.Config, s scen, roots *smx509.CertPool, now tim
 		cvBits: cvBitsOf(s.cli), finOK: true, roots: roots, now: now}
 	st := srv.ConnectionState()
 	ob := connObs{err: r.SErr, resumed: st.DidResume, peers: len(st.PeerCertificates), chains: len(st.VerifiedChains),
-		req: ci.sf.has(13), alert: alertTok(ci.sf), cliErr: r.CErr}
+		req: reqTok(ci.sf), alert: alertTok(ci.sf), cliErr: r.CErr}
 	if r.TimedOut && ob.err == nil {
 		ob.err = fmt.Errorf("timeout")
 	}
